@@ -207,6 +207,25 @@ theorem reach_wf {c : Ctx} {fm : List FirstSet} (hwf : CtxWF c) (hfb : FmBound c
   | kernel hk => exact hK _ hk
   | step _ himp hyi ih => exact implied_wf hwf hfb ih himp hyi
 
+/-! ### justified items: the LALR(1) propagation rules -/
+
+/-- the items (with their lookaheads) that the LALR(1) propagation rules generate over a given transition
+graph: the augmented initial item in the start state, everything an item implies in its own state, and every
+item moved along a transition -/
+inductive Deriv (c : Ctx) (fm : List FirstSet) (start : Nat) (trans : List Transition) : Nat → Item → Prop
+  | start : Deriv c fm start trans start ⟨c.numRules, c.nT, 0⟩
+  | closure {s x y imp} : Deriv c fm start trans s x → impliedItems c fm x = some imp → y ∈ imp →
+      Deriv c fm start trans s y
+  | goto {s t x X} : Deriv c fm start trans s x → symRightOfDot c x = some X → (⟨s, t, X⟩ : Transition) ∈ trans →
+      Deriv c fm start trans t { x with dot := x.dot + 1 }
+
+theorem Deriv.mono {c : Ctx} {fm : List FirstSet} {start : Nat} {tr tr' : List Transition} (h : ∀ t ∈ tr, t ∈ tr')
+    {s : Nat} {y : Item} (hd : Deriv c fm start tr s y) : Deriv c fm start tr' s y := by
+  induction hd with
+  | start => exact .start
+  | closure _ hi hy ih => exact .closure ih hi hy
+  | goto _ hs ht ih => exact .goto ih hs (h _ ht)
+
 /-! ### per-state and per-transition invariants -/
 
 def startItem (c : Ctx) : Item := ⟨c.numRules, c.nT, 0⟩
@@ -254,6 +273,8 @@ structure BInv (c : Ctx) (fm : List FirstSet) (E : Nat → Sym Nat Nat → Prop)
   hasStart : startItem c ∈ b.states.getD 0 []
   /-- the cores of state 0 are generated from the core of the augmented initial item -/
   zcore : ∀ y ∈ b.states.getD 0 [], CReach c fm (fun p => p = (c.numRules, 0)) (coreOf y)
+  /-- every item of every state is generated by the LALR(1) propagation rules -/
+  just : ∀ i, i < b.states.length → ∀ y ∈ b.states.getD i [], Deriv c fm 0 b.transitions i y
 
 /-! ### `enqueue_state_if_needed` -/
 
@@ -275,6 +296,8 @@ structure StepSpec (c : Ctx) (fm : List FirstSet) (b : Builder) (tgt : State) (b
   distinct : ∀ i k, i < b'.states.length → k < b'.states.length →
     SameCores (b'.states.getD i []) (b'.states.getD k []) → i = k
   lenCases : b'.states.length = b.states.length ∨ (b'.states.length = b.states.length + 1 ∧ j = b.states.length)
+  memJ : ∀ k, k < b'.states.length → ∀ y ∈ b'.states.getD k [],
+    (k < b.states.length ∧ y ∈ b.states.getD k []) ∨ (k = j ∧ y ∈ tgt)
 
 theorem StepSpec.sameCores {c : Ctx} {fm : List FirstSet} {b b' : Builder} {tgt : State} {j : Nat}
     (sp : StepSpec c fm b tgt b' j) {i : Nat} (hi : i < b.states.length) :
@@ -355,6 +378,16 @@ theorem enqueueState_spec {c : Ctx} {fm : List FirstSet} {E : Nat → Sym Nat Na
         queueLt := ?_
         transEq := rfl
         lenCases := Or.inl hlen
+        memJ := by
+          intro k hk' y hy
+          rw [hlen] at hk'
+          by_cases e : i = k
+          · subst e
+            rw [getD_set_self hi] at hy
+            rcases (a2 y).mp hy with h | h
+            · exact Or.inl ⟨hk', h⟩
+            · exact Or.inr ⟨rfl, h⟩
+          · rw [getD_set_ne e] at hy; exact Or.inl ⟨hk', hy⟩
         pick := ?_
         distinct := ?_ }
     · intro y hy
@@ -452,6 +485,15 @@ theorem enqueueState_spec {c : Ctx} {fm : List FirstSet} {E : Nat → Sym Nat Na
         queueLt := ?_
         transEq := rfl
         lenCases := Or.inr ⟨hlen, rfl⟩
+        memJ := by
+          intro k hk' y hy
+          rw [hlen] at hk'
+          by_cases e : k < b.states.length
+          · rw [getD_append_lt e] at hy; exact Or.inl ⟨e, hy⟩
+          · have : k = b.states.length := by omega
+            subst this
+            rw [getD_append_len] at hy
+            exact Or.inr ⟨rfl, hy⟩
         pick := ?_
         distinct := ?_ }
     · intro y hy; rw [getD_append_len]; exact hy
@@ -548,7 +590,8 @@ theorem good_of_closure {c : Ctx} {fm : List FirstSet} (hwf : CtxWF c) (hfb : Fm
     Good c fm tgt ∧ (∃ y ∈ tgt, 1 ≤ y.dot) ∧ (∀ y ∈ transitionItems c src X, y ∈ tgt) ∧
       (∀ y ∈ tgt, 1 ≤ y.dot → y ∈ transitionItems c src X) ∧
       (∀ q, (∃ y ∈ tgt, coreOf y = q) ↔ CReach c fm (fun p => ∃ x ∈ transitionItems c src X, coreOf x = p) q) ∧
-      (∀ y ∈ tgt, y.dot = 0 → y.rule < c.numRules) := by
+      (∀ y ∈ tgt, y.dot = 0 → y.rule < c.numRules) ∧
+      (∀ y ∈ tgt, Reach c fm (transitionItems c src X) y) := by
   obtain ⟨h1, h2, h3, h4, h5, h6⟩ := closure_spec h
   have hKwf : ∀ y ∈ transitionItems c src X, WfItem c y := by
     intro y hy
@@ -563,7 +606,7 @@ theorem good_of_closure {c : Ctx} {fm : List FirstSet} (hwf : CtxWF c) (hfb : Fm
     intro y hy
     obtain ⟨x, _, _, rfl⟩ := mem_transitionItems.mp hy
     simp
-  refine ⟨⟨h1, h3, ?_, fun y hy => reach_wf hwf hfb hKwf (h4 y hy), h6⟩, ?_, h2, ?_, closure_cores h2 h3 h4 h6, ?_⟩
+  refine ⟨⟨h1, h3, ?_, fun y hy => reach_wf hwf hfb hKwf (h4 y hy), h6⟩, ?_, h2, ?_, closure_cores h2 h3 h4 h6, ?_, h4⟩
   · intro y hy hd
     rcases h5 y hy with hk | hg
     · have := kernel_dot y hk; omega
@@ -594,7 +637,7 @@ theorem enqueueTarget_spec {c : Ctx} {fm : List FirstSet} (hwf : CtxWF c) (hfb :
   · cases h
   · cases h
   · rename_i tgt hcl
-    obtain ⟨hg, hk, hsubK, hkern, hcores, haug⟩ := good_of_closure hwf hfb hcl hX (inv.good i hi).wf
+    obtain ⟨hg, hk, hsubK, hkern, hcores, haug, hreach⟩ := good_of_closure hwf hfb hcl hX (inv.good i hi).wf
     have sp := enqueueState_spec inv hg hk
     generalize hres : enqueueStateIfNeeded b tgt = res at h sp
     obtain ⟨b1, j⟩ := res
@@ -618,7 +661,20 @@ theorem enqueueTarget_spec {c : Ctx} {fm : List FirstSet} (hwf : CtxWF c) (hfb :
           intro y hy
           rcases sp.same 0 inv.nonempty with e | ⟨e, _⟩
           · rw [e] at hy; exact inv.zcore y hy
-          · exact absurd e.symm sp.jne }
+          · exact absurd e.symm sp.jne
+        just := by
+          intro k hk' y hy
+          have hsubT : ∀ t ∈ b.transitions, t ∈ insertTransition b1.transitions ⟨i, j, X⟩ := by
+            intro t ht; exact insertTransition_mem.mpr (Or.inl (by rw [sp.transEq]; exact ht))
+          rcases sp.memJ k hk' y hy with ⟨hlt, hold⟩ | ⟨rfl, htgt⟩
+          · exact (inv.just k hlt y hold).mono hsubT
+          · have := hreach y htgt
+            clear hy htgt
+            induction this with
+            | kernel hK =>
+              obtain ⟨x, hx, hs, rfl⟩ := mem_transitionItems.mp hK
+              exact .goto ((inv.just i hi x hx).mono hsubT) hs (insertTransition_mem.mpr (Or.inr rfl))
+            | step _ himp hyi ih => exact .closure ih himp hyi }
     · intro t ht
       rcases insertTransition_mem.mp ht with ht | rfl
       · rw [sp.transEq] at ht
@@ -721,7 +777,7 @@ theorem enqueueTargets_spec {c : Ctx} {fm : List FirstSet} (hwf : CtxWF c) (hfb 
     intro b b' inv hi _ h
     simp only [enqueueTargets] at h
     cases h
-    refine ⟨inv.nonempty, inv.good, inv.queue, inv.trans, inv.zero, ?_, inv.distinct, inv.tcore, inv.func, inv.aug, inv.hasStart, inv.zcore⟩
+    refine ⟨inv.nonempty, inv.good, inv.queue, inv.trans, inv.zero, ?_, inv.distinct, inv.tcore, inv.func, inv.aug, inv.hasStart, inv.zcore, inv.just⟩
     intro i' hi' hq X' hX'
     rcases inv.done i' hi' hq X' hX' with (h | ⟨_, k, hk, _⟩) | h
     · exact Or.inl h
@@ -808,6 +864,7 @@ theorem buildLoop_spec {c : Ctx} {fm : List FirstSet} (hwf : CtxWF c) (hfb : FmB
             aug := inv.aug
             hasStart := inv.hasStart
             zcore := inv.zcore
+            just := inv.just
             distinct := inv.distinct
             tcore := inv.tcore
             func := inv.func
@@ -861,7 +918,16 @@ theorem initial_inv {c : Ctx} {fm : List FirstSet} (hwf : CtxWF c) (hfb : FmBoun
         have := (closure_cores h2 h3 h4 h6 (coreOf y)).mp ⟨y, hy, rfl⟩
         refine CReach.mono ?_ this
         rintro p ⟨x, hx, rfl⟩
-        simp at hx; subst hx; rfl }
+        simp at hx; subst hx; rfl
+      just := by
+        intro i hi y hy
+        simp at hi; subst hi
+        simp only [List.getD_cons_zero] at hy
+        have := h4 y hy
+        clear hy
+        induction this with
+        | kernel hK => simp at hK; subst hK; exact .start
+        | step _ himp hyi ih => exact .closure ih himp hyi }
   intro i hi
   simp at hi; subst hi
   simp only [List.getD_cons_zero]
